@@ -5,9 +5,10 @@ import (
 	"encoding/hex"
 	"encoding/json"
 	"encoding/pem"
-	"net/url"
 	"fmt"
+	"net/url"
 	"strings"
+	"time"
 
 	"verifharness/core"
 	"verifharness/world"
@@ -23,7 +24,7 @@ type c03Truth struct {
 }
 
 func C03(c *core.Ctx) {
-	c.Rule = "collateral responses for an otherwise valid quote: genuine; single-bit mutants of the signed member, of the signature and of the issuer-chain header (sampled); re-signing with a foreign key, with the PCK intermediate (wrong role), with a look-alike TCB signer; re-encoding (whitespace / key order) without re-signing; signature over the whole body; unsigned extra and duplicate members under exact, upper-case, title-case and Unicode-fold spellings of tcbInfo / enclaveIdentity / signature, placed before and after the genuine member, carrying values that would flip the verdict; wrong id / version; empty level list; missing members; missing / duplicated / empty / garbage headers; getter errors. Ground truth: accepted iff the signed content is authentic and acceptable; unsigned content never changes a rejection into an acceptance. non-trivial = the response parses as JSON (reaches authentication); distinct = distinct response sets"
+	c.Rule = "collateral responses for an otherwise valid quote: genuine; single-bit mutants of the signed member, of the signature and of the issuer-chain header (sampled); re-signing with a foreign key, with the PCK intermediate (wrong role), with a look-alike TCB signer, with look-alike PKIs whose signer / root are not yet valid or expired at the verification time; re-encoding (whitespace / key order) without re-signing; signature over the whole body; unsigned extra and duplicate members under exact, upper-case, title-case and Unicode-fold spellings of tcbInfo / enclaveIdentity / signature, placed before and after the genuine member, carrying values that would flip the verdict; wrong id / version; empty level list; missing members; missing / duplicated / empty / garbage headers; getter errors. Ground truth: accepted iff the signed content is authentic and acceptable; unsigned content never changes a rejection into an acceptance. non-trivial = the response parses as JSON (reaches authentication); distinct = distinct response sets"
 	r := c.Rng
 	pki, err := world.NewPKI(r, world.PKIOpts{Now: baseTime, Ext: world.RandomSGXExt(r)})
 	if err != nil {
@@ -166,6 +167,27 @@ func C03(c *core.Ctx) {
 	resign("signed by a look-alike TCB signer, header claims the genuine root", other.TcbSigner, other.TcbSigner, pki.Root, false)
 	resign("signed by the genuine signer, header lists signer under look-alike root", pki.TcbSigner, pki.TcbSigner, other.Root, false)
 	resign("header lists root as signer", pki.TcbSigner, pki.Root, pki.Root, false)
+	// look-alike PKIs whose certificates are outside their validity period at the verification
+	// time: a path-building error about dates must not be mistaken for "trust established"
+	day := 24 * time.Hour
+	for _, v := range []struct {
+		name string
+		win  map[string][2]time.Time
+	}{
+		{"signer not yet valid", map[string][2]time.Time{"tcbsigner": {baseTime.Add(time.Second), baseTime.Add(365 * day)}}},
+		{"signer not yet valid (a year ahead)", map[string][2]time.Time{"tcbsigner": {baseTime.Add(365 * day), baseTime.Add(730 * day)}}},
+		{"signer expired", map[string][2]time.Time{"tcbsigner": {baseTime.Add(-365 * day), baseTime.Add(-time.Second)}}},
+		{"root not yet valid", map[string][2]time.Time{"root": {baseTime.Add(time.Hour), baseTime.Add(365 * day)}}},
+		{"root expired", map[string][2]time.Time{"root": {baseTime.Add(-365 * day), baseTime.Add(-time.Hour)}}},
+		{"signer and root not yet valid", map[string][2]time.Time{"tcbsigner": {baseTime.Add(day), baseTime.Add(365 * day)}, "root": {baseTime.Add(day), baseTime.Add(365 * day)}}},
+	} {
+		o, err := world.NewPKI(r, world.PKIOpts{Now: baseTime, Ext: pki.Opts.Ext, Windows: v.win})
+		if err != nil {
+			panic(err)
+		}
+		resign("look-alike PKI, "+v.name+", under its own root", o.TcbSigner, o.TcbSigner, o.Root, false)
+		resign("look-alike PKI, "+v.name+", header claims the genuine root", o.TcbSigner, o.TcbSigner, pki.Root, false)
+	}
 
 	// ---- re-encoding without re-signing ----
 	try(w, "re-encode", "whitespace inserted inside the signed member", func(resp map[string]world.Resp, t, _ string) {
@@ -420,7 +442,9 @@ func C03(c *core.Ctx) {
 	hdrMut("not percent-encoded (raw PEM, allowed if it unescapes to itself)", func(h map[string][]string, k string) {
 		h[k] = []string{strings.ReplaceAll(string(pki.TcbSigner.PEM())+string(pki.Root.PEM()), "+", "%2B")}
 	}, true)
-	hdrMut("only one certificate", func(h map[string][]string, k string) { h[k] = []string{pki.IssuerChainHeader(pki.TcbSigner, pki.TcbSigner)[:len(pki.IssuerChainHeader(pki.TcbSigner, pki.TcbSigner))/2]} }, false)
+	hdrMut("only one certificate", func(h map[string][]string, k string) {
+		h[k] = []string{pki.IssuerChainHeader(pki.TcbSigner, pki.TcbSigner)[:len(pki.IssuerChainHeader(pki.TcbSigner, pki.TcbSigner))/2]}
+	}, false)
 	hdrMut("three certificates", func(h map[string][]string, k string) {
 		h[k] = []string{h[k][0] + strings.ReplaceAll(strings.ReplaceAll(string(pki.Root.PEM()), "\n", "%0A"), "+", "%2B")}
 	}, false)
